@@ -254,7 +254,7 @@ fn main() {
         for k in 0..args.scale(90, 800) {
             let cfg = TreeCfg { n_contracts: rng.below(4) as usize, recursion: if rng.chance(1, 3) { rng.range(1, 6) } else { 0 }, hostile: Hostile::None, hostile_unit: 0,
                                 ldc: k % 2 == 0, actions: rng.range(2, 10) as usize, schedule: if rng.chance(1, 4) { GasSchedule::Unit } else { GasSchedule::Default },
-                                gas_limit: 20_000_000, touch: false };
+                                gas_limit: 20_000_000, touch: false, misalign_per_mille: 700 };
             let t = gen_tree(&mut rng, &cfg);
             let rj = json!({"kind": "tree", "input": t.to_json()});
             run_scenario(&mut out, &mut st, &t.scn.world, &t.scn.tx, rj, "tree", "", oo);
@@ -264,7 +264,7 @@ fn main() {
         for h in hs {
             let n = rng.below(4) as usize;
             let cfg = TreeCfg { n_contracts: n, recursion: if rng.chance(1, 4) { rng.range(1, 4) } else { 0 }, hostile: h, hostile_unit: rng.below(n as u64 + 1) as usize,
-                                ldc: false, actions: rng.range(0, 4) as usize, schedule: GasSchedule::Default, gas_limit: 20_000_000, touch: false };
+                                ldc: false, actions: rng.range(0, 4) as usize, schedule: GasSchedule::Default, gas_limit: 20_000_000, touch: false, misalign_per_mille: 700 };
             let t = gen_tree(&mut rng, &cfg);
             let rj = json!({"kind": "tree", "input": t.to_json()});
             run_scenario(&mut out, &mut st, &t.scn.world, &t.scn.tx, rj, "hostile", &t.note, oo);
@@ -273,7 +273,7 @@ fn main() {
         for k in 0..args.scale(2, 6) {
             let h = if k % 2 == 0 { Hostile::Write(11, rng.below(8) as u8) } else { Hostile::Write(13, 0) };
             let cfg = TreeCfg { n_contracts: (k % 2) as usize, recursion: 0, hostile: h, hostile_unit: (k % 2) as usize, ldc: false, actions: 1,
-                                schedule: GasSchedule::Free, gas_limit: 20_000_000, touch: true };
+                                schedule: GasSchedule::Free, gas_limit: 20_000_000, touch: true, misalign_per_mille: 0 };
             let t = gen_tree(&mut rng, &cfg);
             let rj = json!({"kind": "tree", "input": t.to_json()});
             run_scenario(&mut out, &mut st, &t.scn.world, &t.scn.tx, rj, "touch", &t.note, oo);
